@@ -1,7 +1,646 @@
 package main
 
-import "math/big"
+// Dedicated schemes (Shamir, additive, ISN, Tassa): same method as the KW cases — drive the
+// implementation, render its observables like the model driver does, compare token-wise,
+// and evaluate the property predicate (reconstruct(qualified) = secret, unqualified refused,
+// additive conversion sums to the secret) on the implementation alone.
 
-func runSchemes(r *runner, qk, qb *big.Int) {}
+import (
+	"fmt"
+	"math/big"
+	"sort"
+	"strings"
 
-func replayScheme(r *runner, line string) {}
+	"github.com/bronlabs/bron-crypto/pkg/base/algebra"
+	"github.com/bronlabs/bron-crypto/pkg/base/datastructures/bitset"
+	"github.com/bronlabs/bron-crypto/pkg/mpc/sharing"
+	"github.com/bronlabs/bron-crypto/pkg/mpc/sharing/accessstructures/hierarchical"
+	"github.com/bronlabs/bron-crypto/pkg/mpc/sharing/accessstructures/threshold"
+	"github.com/bronlabs/bron-crypto/pkg/mpc/sharing/accessstructures/unanimity"
+	"github.com/bronlabs/bron-crypto/pkg/mpc/sharing/scheme/additive"
+	"github.com/bronlabs/bron-crypto/pkg/mpc/sharing/scheme/isn"
+	"github.com/bronlabs/bron-crypto/pkg/mpc/sharing/scheme/shamir"
+	"github.com/bronlabs/bron-crypto/pkg/mpc/sharing/scheme/tassa"
+
+	"verif/harness/internal/vh"
+)
+
+// schemeSpec: kind 'S' shamir, 'A' additive, 'I' isn, 'H' tassa
+type schemeSpec struct {
+	kind    byte
+	field   string
+	pol     policy
+	secret  *big.Int
+	subsets [][]uint64
+	rngIdx  int
+}
+
+func (s schemeSpec) text() string {
+	return fmt.Sprintf("%c %s %s %s %s %d", s.kind, s.field, s.pol.text(), vh.ZHex(s.secret), subsetsText(s.subsets), s.rngIdx)
+}
+
+func parseSchemeSpec(l string) schemeSpec {
+	f := strings.Split(strings.TrimSpace(l), " ")
+	s := schemeSpec{kind: f[0][0], field: f[1], pol: parsePolicy(f[2]), secret: vh.UnZHex(f[3])}
+	if f[4] != "-" {
+		for _, x := range strings.Split(f[4], ";") {
+			s.subsets = append(s.subsets, parseIDs(x))
+		}
+	}
+	fmt.Sscanf(f[5], "%d", &s.rngIdx)
+	return s
+}
+
+type schemeOut struct {
+	modelLine string
+	tokens    []string
+	props     []vh.Mismatch
+	skip      bool
+}
+
+func fshareText(m map[uint64]*big.Int) string {
+	ids := make([]uint64, 0, len(m))
+	for id := range m {
+		ids = append(ids, id)
+	}
+	sort.Slice(ids, func(i, j int) bool { return ids[i] < ids[j] })
+	p := make([]string, len(ids))
+	for i, id := range ids {
+		p[i] = fmt.Sprintf("%d=%s", id, vh.ZHex(m[id]))
+	}
+	if len(p) == 0 {
+		return "-"
+	}
+	return strings.Join(p, ";")
+}
+
+func runScheme[FE algebra.PrimeFieldElement[FE]](ctx *fieldCtx[FE], a vh.Args, sp schemeSpec) schemeOut {
+	var out schemeOut
+	caseText := sp.text()
+	prop := func(key, detail string) {
+		out.props = append(out.props, vh.Mismatch{ID: caseText, Kind: "prop", Key: key, Detail: detail, Case: caseText, PropFail: true,
+			What: "C02 property predicate on the implementation (dedicated scheme)"})
+	}
+	qh := vh.ZHex(ctx.q)
+	secret := new(big.Int).Mod(sp.secret, ctx.q)
+	rng := vh.NewRng(a.Seed, "C02", "scheme", sp.rngIdx)
+	ac, err := sp.pol.build()
+	if err != nil {
+		out.skip = true
+		return out
+	}
+	holders := sp.pol.holders()
+	// degenerate policies: no qualified set at all (ISN deals empty shares), or Tassa with last
+	// threshold 1 (degree-0 polynomial; Reconstruct insists on two shares): not in the property's range
+	if !sp.pol.qualified(holders) {
+		out.skip = true
+		return out
+	}
+	if sp.kind == 'H' && len(sp.pol.levels) > 0 && sp.pol.levels[len(sp.pol.levels)-1].t < 2 {
+		out.skip = true
+		return out
+	}
+	// ISN converts the policy to the CNF of its maximal unqualified sets; a holder that is qualified
+	// on its own lies in no unqualified set and is dropped from the scheme (gets no share)
+	selfQualified := false
+	for _, h := range holders {
+		if sp.pol.qualified([]uint64{h}) {
+			selfQualified = true
+		}
+	}
+	if sp.kind == 'I' && selfQualified {
+		inner := prop
+		prop = func(key, detail string) { inner("isn-self-qualified-holder-dropped", key+": "+detail) }
+	}
+	isSet := func(s []uint64) bool { return distinctIDs(s) && subsetOf(s, holders) }
+	quorumOf := func(s []uint64) *unanimity.Unanimity {
+		var q *unanimity.Unanimity
+		var qerr error
+		vh.Safely(func() { q, qerr = unanimity.NewUnanimityAccessStructure(idSet(s)) })
+		if qerr != nil {
+			return nil
+		}
+		return q
+	}
+	checkRecon := func(fam string, s []uint64, v *big.Int) {
+		if !isSet(s) {
+			return
+		}
+		q := sp.pol.qualified(s)
+		if q && (v == nil || v.Cmp(secret) != 0) {
+			prop("reconstruct-qualified-"+fam, fmt.Sprintf("qualified set %v does not reconstruct the dealt secret", s))
+		}
+		if !q && v != nil {
+			prop("reconstruct-unqualified-"+fam, fmt.Sprintf("unqualified set %v reconstructs", s))
+		}
+	}
+	checkSum := func(fam string, s []uint64, sum *big.Int, refused bool) {
+		if !isSet(s) || !sp.pol.qualified(s) {
+			return
+		}
+		if refused {
+			prop("toadditive-qualified-refused-"+fam, fmt.Sprintf("qualified quorum %v: conversion refused", s))
+		} else if sum.Cmp(secret) != 0 {
+			prop("toadditive-sum-"+fam, fmt.Sprintf("quorum %v: additive shares do not sum to the secret", s))
+		}
+	}
+
+	switch sp.kind {
+	case 'S':
+		th := ac.(*threshold.Threshold)
+		scheme, err := shamir.NewScheme(ctx.f, th)
+		if err != nil {
+			out.skip = true
+			return out
+		}
+		do, poly, err := scheme.DealAndRevealDealerFunc(shamir.NewSecret(ctx.fe(secret)), rng)
+		if err != nil {
+			prop("shamir-deal-refused", err.Error())
+			out.skip = true
+			return out
+		}
+		shares := map[uint64]*shamir.Share[FE]{}
+		vals := map[uint64]*big.Int{}
+		for id, sh := range do.Shares().Iter() {
+			shares[uint64(id)] = sh
+			vals[uint64(id)] = big_(sh.Value())
+		}
+		per := make([]string, len(sp.subsets))
+		for i, s := range sp.subsets {
+			var list []*shamir.Share[FE]
+			ok := true
+			for _, id := range s {
+				sh, has := shares[id]
+				if !has {
+					ok = false
+					break
+				}
+				list = append(list, sh)
+			}
+			rt := "E"
+			var rv *big.Int
+			if ok {
+				var sec *shamir.Secret[FE]
+				var rerr error
+				if pn := vh.Safely(func() { sec, rerr = scheme.Reconstruct(list...) }); pn != "" {
+					prop("shamir-reconstruct-panic", pn)
+					rt = "P"
+				} else if rerr == nil {
+					rv = big_(sec.Value())
+					rt = vh.ZHex(rv)
+				}
+			}
+			if ok {
+				checkRecon("shamir", s, rv)
+			}
+			tt := "-"
+			if q := quorumOf(s); q != nil {
+				sum := new(big.Int)
+				tt = ""
+				for _, id := range uniqSorted(s) {
+					sh, has := shares[id]
+					if !has {
+						tt = "E"
+						break
+					}
+					var v FE
+					var cerr error
+					if pn := vh.Safely(func() {
+						x, e := scheme.ConvertShareToAdditive(sh, q)
+						cerr = e
+						if e == nil {
+							v = x.Value()
+						}
+					}); pn != "" {
+						prop("shamir-toadditive-panic", pn)
+						tt = "P"
+						break
+					}
+					if cerr != nil {
+						tt = "E"
+						break
+					}
+					sum.Add(sum, big_(v))
+				}
+				if tt == "" {
+					sum.Mod(sum, ctx.q)
+					tt = vh.ZHex(sum)
+					checkSum("shamir", s, sum, false)
+				} else if tt == "E" && subsetOf(s, holders) {
+					checkSum("shamir", s, nil, true)
+				}
+			}
+			per[i] = "r" + rt + "t" + tt
+		}
+		out.tokens = []string{fshareText(vals), strings.Join(per, ";")}
+		out.modelLine = fmt.Sprintf("S x %s %d %s %s %s", qh, sp.pol.t, idsText(sp.pol.ids), hexFEs(poly.Coefficients()), subsetsText(sp.subsets))
+	case 'A':
+		un := ac.(*unanimity.Unanimity)
+		scheme, err := additive.NewScheme[FE](ctx.f, un)
+		if err != nil {
+			out.skip = true
+			return out
+		}
+		n := len(holders)
+		summands, err := additive.SumToSecret(ctx.fe(secret), ctx.f.Random, rng, n)
+		if err != nil {
+			out.skip = true
+			return out
+		}
+		sec, _ := additive.NewSecret(ctx.fe(secret))
+		do, err := scheme.Deal(sec, rng)
+		if err != nil {
+			prop("additive-deal-refused", err.Error())
+			out.skip = true
+			return out
+		}
+		shares := map[uint64]*additive.Share[FE]{}
+		vals := map[uint64]*big.Int{}
+		tot := new(big.Int)
+		for id, sh := range do.Shares().Iter() {
+			shares[uint64(id)] = sh
+			vals[uint64(id)] = big_(sh.Value())
+			tot.Add(tot, vals[uint64(id)])
+		}
+		if tot.Mod(tot, ctx.q).Cmp(secret) != 0 {
+			prop("additive-deal-sum", "dealt additive shares do not sum to the secret")
+		}
+		per := make([]string, len(sp.subsets))
+		for i, s := range sp.subsets {
+			var list []*additive.Share[FE]
+			ok := true
+			for _, id := range s {
+				sh, has := shares[id]
+				if !has {
+					ok = false
+					break
+				}
+				list = append(list, sh)
+			}
+			rt := "E"
+			var rv *big.Int
+			if ok && len(list) > 0 {
+				var rs *additive.Secret[FE]
+				var rerr error
+				if pn := vh.Safely(func() { rs, rerr = scheme.Reconstruct(list...) }); pn != "" {
+					prop("additive-reconstruct-panic", pn)
+					rt = "P"
+				} else if rerr == nil {
+					rv = big_(rs.Value())
+					rt = vh.ZHex(rv)
+				}
+				checkRecon("additive", s, rv)
+			}
+			per[i] = "r" + rt
+		}
+		out.tokens = []string{hexFEs(summands), strings.Join(per, ";")}
+		out.modelLine = fmt.Sprintf("A x %s %s %s %s %s %s", qh, idsText(sp.pol.ids), vh.ZHex(secret), hexFEs(summands[:n-1]), fshareText(vals), subsetsText(sp.subsets))
+	case 'I':
+		var scheme *isn.Scheme[FE]
+		var serr error
+		if pn := vh.Safely(func() { scheme, serr = isn.NewFiniteScheme[FE](ctx.f, ac) }); pn != "" {
+			prop("isn-newscheme-panic", pn)
+			out.skip = true
+			return out
+		}
+		if serr != nil {
+			out.skip = true
+			return out
+		}
+		do, df, err := scheme.DealAndRevealDealerFunc(isn.NewSecret(ctx.fe(secret)), rng)
+		if err != nil {
+			out.skip = true
+			return out
+		}
+		// canonical order of the maximal unqualified sets: by bitset value
+		var keys []bitset.ImmutableBitSet[sharing.ID]
+		for k := range df {
+			keys = append(keys, k)
+		}
+		sort.Slice(keys, func(i, j int) bool { return uint64(keys[i]) < uint64(keys[j]) })
+		idx := map[bitset.ImmutableBitSet[sharing.ID]]int{}
+		musParts := make([]string, len(keys))
+		summ := make([]FE, len(keys))
+		for i, k := range keys {
+			idx[k] = i
+			var ids []uint64
+			for _, id := range k.List() {
+				ids = append(ids, uint64(id))
+			}
+			musParts[i] = setText(uniqSorted(ids))
+			summ[i] = df[k]
+		}
+		shares := map[uint64]*isn.Share[FE]{}
+		var shareParts []string
+		hs := uniqSorted(holders)
+		for id, sh := range do.Shares().Iter() {
+			shares[uint64(id)] = sh
+		}
+		for _, id := range hs {
+			sh, has := shares[id]
+			if !has {
+				continue
+			}
+			type kv struct {
+				k int
+				v string
+			}
+			var kvs []kv
+			for clause, v := range sh.Value().Iter() {
+				kvs = append(kvs, kv{idx[clause], hexFE(v)})
+			}
+			sort.Slice(kvs, func(i, j int) bool { return kvs[i].k < kvs[j].k })
+			p := make([]string, len(kvs))
+			for i, e := range kvs {
+				p[i] = fmt.Sprintf("%d:%s", e.k, e.v)
+			}
+			body := "-"
+			if len(p) > 0 {
+				body = strings.Join(p, ",")
+			}
+			shareParts = append(shareParts, fmt.Sprintf("%d=%s", id, body))
+		}
+		per := make([]string, len(sp.subsets))
+		for i, s := range sp.subsets {
+			var list []*isn.Share[FE]
+			ok := true
+			for _, id := range s {
+				sh, has := shares[id]
+				if !has {
+					ok = false
+					break
+				}
+				list = append(list, sh)
+			}
+			q := false
+			vh.Safely(func() { q = scheme.CanReconstruct(toIDs(s)...) })
+			if isSet(s) && q != sp.pol.qualified(s) {
+				prop("isn-canreconstruct", fmt.Sprintf("CanReconstruct(%v)=%v, independent evaluation %v", s, q, sp.pol.qualified(s)))
+			}
+			rt := "E"
+			var rv *big.Int
+			if ok {
+				var rs *isn.Secret[FE]
+				var rerr error
+				if pn := vh.Safely(func() { rs, rerr = scheme.Reconstruct(list...) }); pn != "" {
+					prop("isn-reconstruct-panic", pn)
+					rt = "P"
+				} else if rerr == nil {
+					rv = big_(rs.Value())
+					rt = vh.ZHex(rv)
+				}
+				checkRecon("isn", s, rv)
+			}
+			tt := "-"
+			emptyPanic := false
+			if qu := quorumOf(s); qu != nil {
+				sum := new(big.Int)
+				tt = ""
+				for _, id := range uniqSorted(s) {
+					sh, has := shares[id]
+					if !has {
+						tt = "E"
+						break
+					}
+					var v FE
+					var cerr error
+					if pn := vh.Safely(func() {
+						x, e := scheme.ConvertShareToAdditive(sh, qu)
+						cerr = e
+						if e == nil {
+							v = x.Value()
+						}
+					}); pn != "" {
+						if sh.Value().Size() == 0 {
+							// holder contained in every maximal unqualified set: empty chunk map, ToAdditive indexes an empty slice
+							prop("isn-empty-share-toadditive-panic", fmt.Sprintf("ConvertShareToAdditive(share of %d, quorum %v) panicked: %s", id, s, pn))
+							tt = "E"
+							emptyPanic = true
+						} else {
+							prop("isn-toadditive-panic", pn)
+							tt = "P"
+						}
+						break
+					}
+					if cerr != nil {
+						tt = "E"
+						break
+					}
+					sum.Add(sum, big_(v))
+				}
+				if tt == "" {
+					sum.Mod(sum, ctx.q)
+					tt = vh.ZHex(sum)
+					checkSum("isn", s, sum, false)
+				} else if tt == "E" && subsetOf(s, holders) && !emptyPanic {
+					checkSum("isn", s, nil, true)
+				}
+			}
+			qs := "0"
+			if q {
+				qs = "1"
+			}
+			per[i] = "q" + qs + "r" + rt + "t" + tt
+		}
+		st := "-"
+		if len(shareParts) > 0 {
+			st = strings.Join(shareParts, ";")
+		}
+		out.tokens = []string{st, strings.Join(per, ";")}
+		out.modelLine = fmt.Sprintf("I x %s %s %s %s %s", qh, sp.pol.text(), strings.Join(musParts, "|"), hexFEs(summ), subsetsText(sp.subsets))
+	case 'H':
+		h := ac.(*hierarchical.HierarchicalConjunctiveThreshold)
+		scheme, err := tassa.NewScheme(h, ctx.f)
+		if err != nil {
+			out.skip = true
+			return out
+		}
+		do, poly, err := scheme.DealAndRevealDealerFunc(tassa.NewSecret(ctx.fe(secret)), rng)
+		if err != nil {
+			out.skip = true
+			return out
+		}
+		shares := map[uint64]*tassa.Share[FE]{}
+		vals := map[uint64]*big.Int{}
+		for id, sh := range do.Shares().Iter() {
+			shares[uint64(id)] = sh
+			vals[uint64(id)] = big_(sh.Value())
+		}
+		per := make([]string, len(sp.subsets))
+		for i, s := range sp.subsets {
+			var list []*tassa.Share[FE]
+			ok := true
+			for _, id := range s {
+				sh, has := shares[id]
+				if !has {
+					ok = false
+					break
+				}
+				list = append(list, sh)
+			}
+			rt := "E"
+			var rv *big.Int
+			if ok {
+				var rs *tassa.Secret[FE]
+				var rerr error
+				if pn := vh.Safely(func() { rs, rerr = scheme.Reconstruct(list...) }); pn != "" {
+					prop("tassa-reconstruct-panic", pn)
+					rt = "P"
+				} else if rerr == nil {
+					rv = big_(rs.Value())
+					rt = vh.ZHex(rv)
+				}
+				checkRecon("tassa", s, rv)
+			}
+			per[i] = "r" + rt
+		}
+		out.tokens = []string{fshareText(vals), strings.Join(per, ";")}
+		out.modelLine = fmt.Sprintf("H x %s %s %s %s", qh, sp.pol.text()[2:], hexFEs(poly.Coefficients()), subsetsText(sp.subsets))
+	}
+	return out
+}
+
+func compareScheme(sp schemeSpec, impl []string, modelLine string) []vh.Mismatch {
+	var out []vh.Mismatch
+	caseText := sp.text()
+	model := modelTokens(modelLine)
+	names := []string{"shares", "subsets"}
+	fam := map[byte]string{'S': "shamir", 'A': "additive", 'I': "isn", 'H': "tassa"}[sp.kind]
+	add := func(key, detail string) {
+		out = append(out, vh.Mismatch{ID: caseText, Kind: "corr", Key: key, Detail: detail, Case: caseText,
+			What: "correspondence model <-> implementation (dedicated scheme " + fam + ")"})
+	}
+	if len(model) != len(impl) {
+		add(fam+"-shape", fmt.Sprintf("impl %v | model %v", impl, model))
+		return out
+	}
+	for i := range impl {
+		if impl[i] == model[i] {
+			continue
+		}
+		if names[i] == "shares" {
+			add(fam+"-deal", fmt.Sprintf("impl %s | model %s", impl[i], model[i]))
+			continue
+		}
+		is, ms := strings.Split(impl[i], ";"), strings.Split(model[i], ";")
+		if len(is) != len(ms) {
+			add(fam+"-subsets-shape", fmt.Sprintf("impl %s | model %s", impl[i], model[i]))
+			continue
+		}
+		for k := range is {
+			if is[k] != ms[k] {
+				add(fam+"-reconstruct", fmt.Sprintf("ID list %v: impl %s | model %s", sp.subsets[k], is[k], ms[k]))
+			}
+		}
+	}
+	return out
+}
+
+func (r *runner) runSchemeSpec(sp schemeSpec) schemeOut {
+	if sp.field == "bls12381" {
+		return runScheme(r.bls, r.a, sp)
+	}
+	return runScheme(r.k256, r.a, sp)
+}
+
+func runSchemeBatch(r *runner, specs []schemeSpec) {
+	var lines []string
+	var outs []schemeOut
+	var kept []schemeSpec
+	for _, sp := range specs {
+		o := r.runSchemeSpec(sp)
+		fam := map[byte]string{'S': "shamir", 'A': "additive", 'I': "isn", 'H': "tassa"}[sp.kind]
+		if o.skip {
+			r.res.Count("scheme/"+fam+"/"+sp.field+"/refused", sp.text(), false)
+			for _, m := range o.props {
+				r.report(m)
+			}
+			continue
+		}
+		r.res.Count("scheme/"+fam+"/"+sp.field, sp.text(), true)
+		for _, m := range o.props {
+			r.report(m)
+		}
+		lines = append(lines, o.modelLine)
+		outs = append(outs, o)
+		kept = append(kept, sp)
+	}
+	if len(lines) == 0 {
+		return
+	}
+	res, err := vh.Driver(r.a.Driver, lines)
+	if err != nil {
+		r.report(vh.Mismatch{ID: "driver", Kind: "corr", Key: "scheme-driver-failed", Detail: err.Error(), Case: kept[0].text(), What: "model driver"})
+		return
+	}
+	for i, sp := range kept {
+		for _, m := range compareScheme(sp, outs[i].tokens, res[i]) {
+			m.PropFail = len(outs[i].props) > 0
+			r.report(m)
+		}
+	}
+}
+
+func runSchemes(r *runner, qk, qb *big.Int) {
+	a := r.a
+	maxN := 4
+	if a.Tier == "thorough" {
+		maxN = 5
+	}
+	fields := []struct {
+		name string
+		q    *big.Int
+	}{{"k256", qk}, {"bls12381", qb}}
+	var specs []schemeSpec
+	idx := 0
+	add := func(kind byte, p policy, all bool) {
+		f := fields[idx%2]
+		rg := vh.NewRng(a.Seed, "C02", "schemecase", idx)
+		h := p.holders()
+		sp := schemeSpec{kind: kind, field: f.name, pol: p, secret: secretsFor(rg, f.q, idx), rngIdx: idx}
+		if all || len(h) <= 5 {
+			sp.subsets = allSubsets(h)
+		} else {
+			sp.subsets = append(sp.subsets, nil, h)
+			for k := 0; k < 16; k++ {
+				sp.subsets = append(sp.subsets, randomSubset(rg, h))
+			}
+		}
+		sp.subsets = append(sp.subsets, subsetVariants(rg, h, p)...)
+		specs = append(specs, sp)
+		idx++
+	}
+	for n := 2; n <= maxN+1; n++ {
+		for _, p := range enumThreshold(n) {
+			for _, as := range assignmentsFor('T', n) {
+				add('S', as.apply(p), true)
+			}
+		}
+		for _, as := range assignmentsFor('U', n) {
+			add('A', as.apply(policy{fam: 'U', ids: rangeIDs(1, n)}), true)
+		}
+	}
+	for n := 2; n <= maxN; n++ {
+		for _, p := range enumCNF(n) {
+			add('I', p, true)
+			add('I', assignment{"sparse", sparseIDs}.apply(p), true)
+		}
+		for _, p := range enumHier(n) {
+			add('I', p, true)
+			add('H', p, true)
+			add('H', assignment{"sparse-sorted", sortedCopy(sparseIDs, n)}.apply(p), true)
+			add('H', assignment{"big-sorted", sortedCopy(bigIDs, n)}.apply(p), true)
+		}
+		for _, p := range enumThreshold(n) {
+			add('I', p, true)
+		}
+	}
+	for _, p := range enumGate(3) {
+		add('I', p, true)
+	}
+	runSchemeBatch(r, specs)
+}
+
+func replayScheme(r *runner, line string) {
+	runSchemeBatch(r, []schemeSpec{parseSchemeSpec(line)})
+}
